@@ -46,8 +46,22 @@ RULE = ("cases = (program seed, number of steps 2-6, dtype, per-step annotations
         "chunks, annotations).")
 ASSUMPTIONS = ["dask.get (synchronous scheduler) on a fully materialised unfused graph defines the expected block values",
                "Task.dependencies of a materialised task are the dependencies of that task"]
-BUDGET = {"quick": 60, "thorough": 560}
-FLOORS = {"quick": {"evaluations": 1, "distinct_nontrivial": 1}, "thorough": {"evaluations": 1, "distinct_nontrivial": 1}}
+BUDGET = {"quick": 50, "thorough": 540}
+FLOORS = {
+    "quick": {"evaluations": 1350, "distinct_nontrivial": 1300,
+              "counters": {"hlg_cull_checked": 18000, "hlg_cull_removed_tasks": 16000, "hlg_cull_twice_checked": 4500,
+                           "layer_cull_checked": 47000, "layer_cull_twice_checked": 11000, "task_deps_compared": 110000,
+                           "optimize_blockwise_calls": 1350, "fused_values_checked": 5300, "layers_absorbed": 3500,
+                           "ann_fused_groups_with_differing_annotations": 600, "fuse_roots_merged_layers": 500,
+                           "fuse_roots_ann_groups_with_annotations": 30, "complete_subset_spaces": 900},
+              "sets": {"annotation_combinations": 550, "layer_features": 18}, "max_skipped_fraction": 0.05},
+    "thorough": {"evaluations": 22000, "distinct_nontrivial": 21000,
+                 "counters": {"hlg_cull_checked": 300000, "hlg_cull_twice_checked": 75000, "layer_cull_checked": 800000,
+                              "layer_cull_twice_checked": 190000, "task_deps_compared": 1900000, "fused_values_checked": 90000,
+                              "layers_absorbed": 60000, "ann_fused_groups_with_differing_annotations": 8000,
+                              "fuse_roots_merged_layers": 9000, "fuse_roots_ann_groups_with_annotations": 400},
+                 "sets": {"annotation_combinations": 4000, "layer_features": 20}, "max_skipped_fraction": 0.05},
+}
 EXHAUSTIVE_SPACE = ("every subset of output blocks for outputs with <= 6 blocks; all ordered pairs and triples of lattice "
                     "values per annotation key (priority, retries, resources, workers, allow_other_workers) on a fixed chain")
 CLAIM = ("On every generated stack the real HighLevelGraph.cull, Blockwise.cull, optimize_blockwise and fuse_roots were run "
@@ -57,11 +71,9 @@ CLAIM = ("On every generated stack the real HighLevelGraph.cull, Blockwise.cull,
 LEVEL_NOTE = "the unfused, fully materialised graph evaluated by dask.get is the reference; annotation rules restated in the harness"
 TECHNIQUE = "runtime monitoring: differential oracle (culled / fused vs full unfused graph), return-value contract on Blockwise.cull, annotation-lattice oracle"
 CASE_TIMEOUT = 120
-PENDING = {
-    "fused-annotations:fuse_roots:all-annotations-dropped":
-        "fuse_roots merges a Blockwise layer with its root layers (all carrying equal annotations) into a plain dict: "
-        "the merged layer has annotations None, every constraint (workers, resources, retries, priority) is dropped",
-}
+PENDING = {}
+# Found by this check on the pinned tree and repaired since (repo commit "fix: fuse_roots drops the annotations of the layers
+# it merges", see findings_proposed/C10.md): label `fused-annotations:fuse_roots:all-annotations-dropped`.
 
 # ---- annotation lattice ---------------------------------------------------------------------------------------------
 LATTICE = {
